@@ -8,6 +8,9 @@ CHECKS = {
  "C12": dict(cat="proof", ref="DESIGN.md §5 C12",
    text="Coq theorems over a model of diff::lines, make_diff, ModifiedLines, json/checkstyle line arithmetic and XmlEscaped, for every pair of texts and every context size (no bound); model tied to the code by a correspondence run (exhaustive over small line sequences + seeded random texts) through cfg-guarded hooks; the property's statement is additionally evaluated on the implementation's own results.",
    note="Trusted: Coq kernel + vm_compute; hand-written model (tied by correspondence, not translation); python oracles and json/xml parsers; serde_json escaping and the print/parse round trip of ModifiedLines are checked on the implementation only (not theorems). Known finding class HasXmlForbiddenChar."),
+ "C11": dict(cat="proof", ref="DESIGN.md §5 C11",
+   text="Coq theorems (28): version_sort and compare_items are total preorders for all identifiers (no length bound); a stable sort by a total preorder is a sorted permutation, unique and independent of the algorithm, and independent of the input order whenever Equal implies identical; Equal classes of version_sort characterised (equal chunk lists). Tied to the code by a correspondence run (comparison matrices, sort_by results, compare_items on parsed items) through hooks; the preorder laws and permutation-invariance are also evaluated on the implementation end to end (every permutation of generated groups is formatted).",
+   note="Trusted: Coq kernel, hand-written model of sort.rs/compare_items (usize = 64 bit), slice::sort_by is a correct stable sort given a total preorder. Ord for UseTree (imports.rs) is not modelled: import ordering is covered only by the end-to-end permutation oracle. Group boundaries (blank lines, macro_use, skip) not covered by this check. Known finding class: identifiers with a digit run >= 2^64."),
  "C17": dict(cat="proof", ref="DESIGN.md §5 C17",
    text="Coq theorems (28) over a model of Range and FileLines: queries answer as the UNION of the given ranges for every range list incl. empty ranges, normal form sorted/disjoint/non-adjacent, empty selection selects nothing; model tied to the code by a seeded correspondence run through hook config::file_lines::verif; union semantics also evaluated directly on the implementation's answers.",
    note="Partial: the range algebra and queries are proved; the clauses about emitted bytes (unselected items byte-identical, selected code formatted as without restriction) are not covered by this check yet. Trusted: Coq kernel, hand-written model, Vec::sort correctness, path canonicalisation abstracted."),
